@@ -84,6 +84,15 @@ class AWorld:
                 aid = keys[int(op.get("k", 0)) % len(keys)]
                 self.model.environment.get_agent(aid)[Val].v = int(op["val"])
                 self.pop[aid] = int(op["val"])
+            elif op["op"] == "use":
+                # the usual "everybody but me" idiom and random picks: the caller edits the list it was handed
+                others = self.model.environment.get_agents()
+                if isinstance(others, list):
+                    del others[:max(1, len(others) // 2)]
+                sh = self.model.environment.shuffle()
+                if isinstance(sh, list):
+                    sh.clear()
+                self.model.environment.get_random_agent()
             else:
                 raise InvalidCase(op)
 
@@ -320,7 +329,7 @@ def strategy(tier):
     val = wone_of(st.none(), st.integers(-3, 3), st.just(0))
     pop_op = wone_of(st.builds(lambda v: {"op": "join", "val": v}, val), st.builds(lambda v: {"op": "join", "val": v}, val),
                        st.builds(lambda k: {"op": "leave", "k": k}, st.integers(0, 6)),
-                       st.builds(lambda k, v: {"op": "set", "k": k, "val": v}, st.integers(0, 6), st.integers(-3, 9)))
+                       st.builds(lambda k, v: {"op": "set", "k": k, "val": v}, st.integers(0, 6), st.integers(-3, 9)), st.just({"op": "use"}))
     sched = st.dictionaries(st.integers(0, 9).map(str), st.lists(pop_op, min_size=1, max_size=3), max_size=5)
     agent = st.fixed_dictionaries({
         "kind": st.just("agent"), "init": st.lists(st.builds(lambda v: {"op": "join", "val": v}, val), max_size=4),
